@@ -268,7 +268,7 @@ def run(ctx):
 
     # ---- random walks
     quick = ctx.tier == "quick"
-    n_walks = 220 if quick else 3000
+    n_walks = 220 if quick else 2000
     stats = {}
     trees = []
     lens = {}
